@@ -8,16 +8,20 @@
  *                   lie inside the output so far), LZ77 expansion over the 16 KiB window with self-overlap and
  *                   wrap-around; copies of up to COPY_MAX bytes (longer lengths: the length decode is
  *                   harness_fields, the copy loop body is the same for every byte).
- *   harness_read    one lha_pm1_read: optional 5-bit start header, command bit, byte block of <= BLOCK_MAX bytes
- *                   followed by its copy (<= COPY_MAX2 bytes) decoded at the position AFTER the block, or a bare copy.
+ *   harness_outb    outputted_byte: window, window position, output position, history.
+ *   harness_read    one lha_pm1_read: optional 5-bit start header, command bit, byte block of <= BLOCK_MAX symbolic
+ *                   bytes (real read_byte under any start header) followed by its copy, or a bare copy.  The copy
+ *                   itself is read_copy_command's contract (harness_copy, arbitrary window): the stub records that
+ *                   it is entered at the output/window position after the block, at the right bit, with the
+ *                   block's bytes already appended (outputted_byte contract, harness_outb), writing behind the block.
+ *                   (The monolithic version - real window, real copy - makes CBMC's array theory generate 22 M
+ *                   variables even for a 1-byte block and exhausts 12 GB; the split is by contract instead.)
  *   harness_block   read_byte_block for every block length 1..216: exactly that many bytes are read, and a copy
  *                   command follows unless the block has the maximal length 216 (callees stubbed).
  * Stubs: bit reader = BITS_SPEC; find_in_history_list (harness_fields) returns an arbitrary "value at rank" ghost
  * array and records the rank; update_history_list records the bytes in order (both justified by mtf.*);
- * harness_read replaces read_byte by its contract from harness_fields (consumes the bits of one coded rank under
- * the current start header, returns an arbitrary byte) because --arrays-uf-always, needed for the 16 KiB window,
- * crashes CBMC 6.11 on the tree walk through a symbolic row pointer; harness_block stubs read_byte,
- * outputted_byte, read_copy_command. */
+ * harness_read stubs outputted_byte and read_copy_command by their contracts (see above); harness_block stubs
+ * read_byte, outputted_byte, read_copy_command. */
 #define BITS_SPEC
 #ifndef BS_N
 #define BS_N 8
@@ -33,9 +37,6 @@ static unsigned PMA_BITS(unsigned p, unsigned n) { return bs_ref(p, n); }
 #endif
 #ifndef BLOCK_MAX
 #define BLOCK_MAX 4
-#endif
-#ifndef COPY_MAX2
-#define COPY_MAX2 6
 #endif
 
 static LHAPM1Decoder dec;
@@ -60,19 +61,38 @@ static uint8_t find_in_history_list(HistoryLinkedList *list, uint8_t count)
 }
 #endif
 #ifdef READ_HARNESS
-/* contract of read_byte as established by harness_fields for every start header: consumes exactly the bits of one
- * coded rank and returns the history entry at that rank (here: an arbitrary byte per call, the rank is recorded) */
-static const u8 *rb_vals;
-static unsigned rb_calls, rb_rank[BLOCK_MAX], rb_header_ok = 1, rb_header;   /* rb_header: ghost, set by the harness */
-static int read_byte(LHAPM1Decoder *decoder)
+/* the k-th history lookup returns an arbitrary byte and records the rank asked for */
+static const u8 *find_vals;
+static unsigned find_calls, find_rank[BLOCK_MAX];
+static uint8_t find_in_history_list(HistoryLinkedList *list, uint8_t count)
 {
-	unsigned k = rb_calls++;
-	if (decoder->byte_decode_tree != byte_decode_trees[rb_header]) rb_header_ok = 0;
-	if (k < BLOCK_MAX) rb_rank[k] = pm1_ref_rank(rb_header, &bs_pos);
-	return rb_vals[k < BLOCK_MAX ? k : 0];
+	unsigned k = find_calls++;
+	(void) list;
+	if (k < BLOCK_MAX) find_rank[k] = count;
+	return find_vals[k < BLOCK_MAX ? k : 0];
+}
+/* contract of outputted_byte (harness_outb): byte appended to the window, the history and the output count */
+static u8 ob_log[BLOCK_MAX];
+static unsigned ob_calls;
+static void outputted_byte(LHAPM1Decoder *decoder, uint8_t b)
+{
+	if (ob_calls < BLOCK_MAX) ob_log[ob_calls] = b;
+	++ob_calls;
+	decoder->ringbuf_pos = (decoder->ringbuf_pos + 1) % RING_BUFFER_SIZE;
+	++decoder->output_stream_pos;
+}
+/* contract of read_copy_command (harness_copy): decodes one copy at the decoder's current output position, appends it
+ * behind buf; here it only records the state it is entered with and reports a harness-chosen length */
+static unsigned cc_calls, cc_opos, cc_rpos, cc_bitpos, cc_ret, cc_ob_calls;
+static uint8_t *cc_buf;
+static size_t read_copy_command(LHAPM1Decoder *decoder, uint8_t *buf)
+{
+	++cc_calls;
+	cc_opos = decoder->output_stream_pos; cc_rpos = decoder->ringbuf_pos; cc_bitpos = bs_pos; cc_buf = buf; cc_ob_calls = ob_calls;
+	return cc_ret;
 }
 #endif
-#if defined(COPY_HARNESS) || defined(READ_HARNESS)
+#if defined(COPY_HARNESS) || defined(OUTB_HARNESS)
 #define UPD_MAX 16
 static u8 upd_log[UPD_MAX];
 static unsigned upd_n;
@@ -185,39 +205,48 @@ void harness_copy(void)
 }
 #endif
 
+#ifdef OUTB_HARNESS
+void harness_outb(void)
+{
+	INPUT(u32, opos); INPUT(u32, pos0); INPUT(u32, probe); INPUT(u8, b);
+	LHAPM1Decoder d0;
+	ASSUME(opos < 0x7fff0000u && pos0 < RING_BUFFER_SIZE && probe < RING_BUFFER_SIZE);
+	dec = d0;
+	dec.output_stream_pos = opos;
+	dec.ringbuf_pos = pos0;
+	outputted_byte(&dec, b);
+	CHECK(dec.ringbuf[probe] == (probe == pos0 ? b : d0.ringbuf[probe]), "C04: an output byte is appended to the 16 KiB window");
+	CHECK(dec.ringbuf_pos == (pos0 + 1) % RING_BUFFER_SIZE && dec.output_stream_pos == opos + 1, "C04: window position (mod 16 KiB) and output position advance by one");
+	CHECK(upd_n == 1 && upd_log[0] == b, "C04: the byte is moved to the front of the history");
+	if (pos0 == RING_BUFFER_SIZE - 1) WITNESS("window seam");
+	WITNESS("end");
+}
+#endif
+
 #ifdef READ_HARNESS
 void harness_read(void)
 {
 	INPUT_ARRAY(u8, data, BS_N);
 	INPUT_ARRAY(u8, vals, BLOCK_MAX);
-	INPUT(u32, skip); INPUT(u32, opos); INPUT(u32, pos0); INPUT(u32, probe); INPUT(u32, idx); INPUT(u32, row);
+	INPUT(u32, skip); INPUT(u32, opos); INPUT(u32, pos0); INPUT(u32, row); INPUT(u32, cret);
 	LHAPM1Decoder d0;
 	u8 out[OUTPUT_BUFFER_SIZE];
-	unsigned cur, header, is_block, blen = 0, i, cls, len, dist, d, total, rank[BLOCK_MAX];
+	unsigned cur, header, is_block, blen = 0, i, rank[BLOCK_MAX];
 	size_t n;
-	ASSUME(skip < 8 && opos < 0x7fff0000u && pos0 < RING_BUFFER_SIZE && probe < RING_BUFFER_SIZE && idx < BLOCK_MAX + COPY_MAX2 && row <= 32);
+	ASSUME(skip < 8 && opos < 0x7fff0000u && pos0 < RING_BUFFER_SIZE && row <= 32 && cret <= MAX_COPY_BLOCK_LEN);
 	load_bits(data, skip);
-	rb_vals = vals;
-	/* reference decode of the whole command */
+	find_vals = vals;
+	cc_ret = cret;
+	/* reference decode of the command up to the copy */
 	cur = skip;
-	if (row == 32) {                             /* start of stream: the 5-bit header selects the byte code */
-		ASSUME(opos == 0);
-		header = PMA_BITS(cur, 5); cur += 5;
-	} else header = row;
-	rb_header = header;
+	if (row == 32) { header = PMA_BITS(cur, 5); cur += 5; }   /* start of stream: the 5-bit header selects the byte code */
+	else header = row;
 	is_block = PMA_BITS(cur, 1); cur += 1;
 	if (is_block) {
 		blen = pma_ref_rows(pm1_ref_block_len, 5, &cur);
 		ASSUME(blen <= BLOCK_MAX);
 		for (i = 0; i < BLOCK_MAX; ++i) if (i < blen) rank[i] = pm1_ref_rank(header, &cur);
 	}
-	/* the copy that follows is decoded at the output position after the block */
-	cls = pm1_ref_copy_type(opos + blen, &cur);
-	len = cls < 2 ? 2 : pma_ref_rows(pm1_ref_copy_len, 7, &cur);
-	dist = pm1_ref_distance(cls, opos + blen, &cur);
-	d = dist + 1;
-	ASSUME(len <= COPY_MAX2 && dist < opos + blen);      /* valid copy (the invalid case: pm1.cmd.copy) */
-	total = blen + len;
 	dec = d0;
 	dec.output_stream_pos = opos;
 	dec.ringbuf_pos = pos0;
@@ -225,33 +254,22 @@ void harness_read(void)
 
 	n = lha_pm1_read(&dec, out);
 
-	CHECK(n == total, "C04: one read = [byte block +] copy");
-	CHECK(bs_pos == cur, "C04: command = [5-bit header at the start] + command bit + [block length + bytes] + copy");
 	CHECK(dec.byte_decode_tree == byte_decode_trees[header], "C04: the 5-bit stream header selects the byte code for the whole stream");
-	CHECK(rb_calls == blen && rb_header_ok, "C04: one coded byte per position of the block, decoded under the stream's start header");
+	CHECK(find_calls == blen && ob_calls == blen, "C04: a block of the coded length: one history lookup and one output per byte");
 	for (i = 0; i < BLOCK_MAX; ++i) if (i < blen) {
-		CHECK(rb_rank[i] == rank[i], "C04: i-th byte of a block is the i-th coded rank after the block length");
-		CHECK(out[i] == vals[i], "C04: i-th byte of a block is the byte decoded for it");
+		CHECK(find_rank[i] == rank[i], "C04: i-th byte of a block is looked up at its coded rank (any of the 32 start headers)");
+		CHECK(out[i] == vals[i] && ob_log[i] == vals[i], "C04: i-th byte of a block is the history entry found there, delivered and appended in order");
 	}
-	if (idx < total) {
-		if (idx >= blen) {
-			/* the copy may reach into the block just output: position idx of this read's output lies d bytes
-			 * after its source */
-			u8 expect = idx >= d ? out[idx - d] : d0.ringbuf[(pos0 + RING_BUFFER_SIZE + idx - d) % RING_BUFFER_SIZE];
-			CHECK(out[idx] == expect, "C04: copy after a block is the LZ77 expansion over window + block");
-		}
-		CHECK(upd_log[idx] == out[idx], "C04: every output byte is moved to the front of the history, in order");
-	}
-	CHECK(upd_n == total, "C04: one history update per output byte");
-	CHECK(dec.ringbuf_pos == (pos0 + total) % RING_BUFFER_SIZE && dec.output_stream_pos == opos + total, "C04: window position and output position advance by the bytes output");
-	{
-		unsigned e = (probe + RING_BUFFER_SIZE - pos0) % RING_BUFFER_SIZE;
-		CHECK(dec.ringbuf[probe] == (e < total ? out[e] : d0.ringbuf[probe]), "C04: window after the command = old window with the output appended");
-	}
+	/* every command ends with a copy (a block of <= BLOCK_MAX bytes is never the maximal one) */
+	CHECK(cc_calls == 1 && cc_bitpos == cur, "C04: command = [5-bit header at the start] + command bit + [block length + bytes] + copy");
+	CHECK(cc_ob_calls == blen && cc_opos == opos + blen && cc_rpos == (pos0 + blen) % RING_BUFFER_SIZE,
+	      "C04: the copy is decoded at the output position AFTER the block, with the block already in the window");
+	CHECK(cc_buf == out + blen, "C04: the copy is delivered right behind the block");
+	CHECK(n == (cret == 0 ? 0 : blen + cret), "C04: one read = [byte block +] copy (nothing if the copy is invalid)");
 	if (row == 32 && is_block && blen == 2) WITNESS("first command of a stream: header, block of 2, copy");
-	if (is_block && blen == BLOCK_MAX && len == COPY_MAX2 && d <= 2) WITNESS("block followed by a copy that repeats its last bytes");
-	if (is_block && opos == 62 && blen == 2 && cls == 1) WITNESS("block crosses the 64-byte threshold, copy uses the new class");
-	if (!is_block && len == 3) WITNESS("bare copy");
+	if (is_block && blen == BLOCK_MAX && row == 17) WITNESS("block of BLOCK_MAX under start header 17");
+	if (is_block && opos == 62 && blen == 2) WITNESS("block crosses the 64-byte threshold before its copy");
+	if (!is_block) WITNESS("bare copy");
 	WITNESS("end");
 }
 #endif
